@@ -261,6 +261,7 @@ def disc_def(rng, did):
     E["dvis"] = rng.choice(["", "", "pub", "pub(crate)", "pub(super)"])
     E["dvis_empty"] = E["dvis"] == "" and did % 5 == 2        # written `vis()`: private, which is not the same as no `vis(..)` at all
     E["dder"] = rng.random() < 0.7
+    E["dder_vn"] = E["dder"] and did % 4 == 3
     E["dstyle"] = rng.choice(["none", "snake_case", "SCREAMING_SNAKE_CASE", "kebab-case", "camelCase"]) if E["dder"] else "none"
     E["dsplit"] = rng.randrange(2)
     E["ddefault"] = rng.random() < 0.3          # derive(Default) on the discriminant enum + #[strum_discriminants(default)] on one variant
@@ -291,7 +292,10 @@ def disc_module(E):
     items += E.get("dpass", [])
     if E["dder"]:
         # (every third time the generated enum derives EnumDiscriminants itself: a second expansion of the same derive)
-        items.append("derive(strum::EnumIter, strum::EnumString, strum::Display, strum::EnumCount, Hash%s)" % (", strum::EnumDiscriminants" if E["id"] % 3 == 0 else ""))
+        if E.get("dder_vn"):
+            items.append("derive(strum::VariantNames)")       # the ONLY strum derive on the generated enum: the passed-through style is for it
+        else:
+            items.append("derive(strum::EnumIter, strum::EnumString, strum::Display, strum::EnumCount, Hash%s)" % (", strum::EnumDiscriminants" if E["id"] % 3 == 0 else ""))
         if E["dstyle"] != "none":
             items.append('strum(serialize_all = "%s")' % E["dstyle"])
     attrs = []
@@ -384,7 +388,14 @@ def disc_module(E):
             if v["kind"] == "unit":
                 break
     body.append('    o.line(&format!("{{\\"op\\":\\"dlayout\\",\\"def\\":%d,\\"size\\":{},\\"align\\":{},\\"ref_size\\":{},\\"ref_align\\":{}}}", core::mem::size_of::<%s>(), core::mem::align_of::<%s>(), core::mem::size_of::<Ref%d>(), core::mem::align_of::<Ref%d>()));' % (did, dn, dn, did, did))
-    if E["dder"]:
+    if E["dder"] and E.get("dder_vn"):
+        body += ["    {",
+                 "        let all: Vec<%s> = vec![%s];" % (dn, ", ".join("%s::%s" % (dn, D.vid(v)) for v in E["variants"])),
+                 "        let iter: Vec<String> = all.iter().map(|d| d_index(*d).to_string()).collect();",
+                 "        let names: Vec<String> = <%s as strum::VariantNames>::VARIANTS.iter().map(|s| s.to_string()).collect();" % dn,
+                 '        o.line(&format!("{{\\"op\\":\\"dderives\\",\\"def\\":%d,\\"iter\\":{},\\"names\\":{},\\"parsed\\":{},\\"count\\":{}}}", jlist(&iter), jstrs(&names), jlist(&iter), names.len()));' % did,
+                 "    }"]
+    elif E["dder"]:
         body += ["    {", "        use strum::IntoEnumIterator;",
                  "        let iter: Vec<String> = %s::iter().map(|d| d_index(d).to_string()).collect();" % dn,
                  "        let all: Vec<%s> = vec![%s];" % (dn, ", ".join("%s::%s" % (dn, D.vid(v)) for v in E["variants"])),
